@@ -8,6 +8,7 @@
 package main
 
 import (
+	"bytes"
 	"os"
 	"strings"
 
@@ -150,6 +151,25 @@ func genSessions(g *vh.Gen) {
 	}
 }
 
+// genAsm: the same kind of sessions against the ASSEMBLED server (child process: config.Process from the
+// environment, server.FullAssembly, real SMTP port, REST read-back): whatever the assembly does to the configured
+// lists on their way to the policy is inside the check.
+func genAsm(g *vh.Gen) {
+	o := smtpd.Opts{Garbage: 0.02, MaxBody: 40}
+	for i := 0; i < g.N(40, 1500); i++ {
+		c, pool := smtpd.GenCfg(g, o)
+		for c.RejO == "" && c.Rej == "" && c.Dis == "" {
+			c, pool = smtpd.GenCfg(g, o)
+		}
+		stream := smtpd.GenDialogue(g, c, pool[:2+g.Intn(3)], o)
+		stream = bytes.ReplaceAll(stream, []byte("x/y"), []byte("xsy")) // names with '/' cannot be read back over REST (K-C14)
+		if !bytes.HasSuffix(bytes.ToUpper(bytes.TrimRight(stream, "\r\n")), []byte("QUIT")) {
+			stream = append(stream, []byte("QUIT\r\n")...)
+		}
+		g.Emit("asm", append(c.Fields(), vh.H(stream))...)
+	}
+}
+
 func setenv(k, v string) {
 	if v == "" {
 		os.Unsetenv(k)
@@ -164,6 +184,8 @@ func exec(kind string, in []string) []string {
 		return smtpd.Exec(in)
 	case "smtpdefer":
 		return smtpd.ExecDefer(in)
+	case "asm":
+		return smtpd.ExecAsm(in)
 	case "wild":
 		return []string{vh.B(stringutil.MatchWithWildcards(vh.US(in[0]), vh.US(in[1])))}
 	case "pol":
@@ -185,4 +207,10 @@ func exec(kind string, in []string) []string {
 	return []string{"UNKNOWN-KIND"}
 }
 
-func main() { vh.Main(func(g *vh.Gen) { gen(g); genSessions(g) }, exec) }
+func main() {
+	if len(os.Args) > 1 && os.Args[1] == "asmchild" {
+		smtpd.AsmChild()
+		return
+	}
+	vh.Main(func(g *vh.Gen) { gen(g); genSessions(g); genAsm(g) }, exec)
+}
